@@ -1,162 +1,117 @@
-NOTES = ("Every check: (1) regenerates the generated Coq models from /repo, (2) rebuilds and re-checks the property's theorem file "
-         "(Print Assumptions captured), (3) runs the model inside Coq (vm_compute) against the implementation on seeded cases, "
-         "(4) runs the documented closed form / numeric oracle on the implementation to exhibit failing inputs. See DESIGN.md.")
+NOTES = "Every check: (1) regenerates the generated Coq models from /repo, (2) rebuilds and re-checks the property's theorem file (Print Assumptions captured), (3) runs the model inside Coq (vm_compute) against the implementation on seeded cases, (4) runs the documented closed form / numeric oracle on the implementation to exhibit failing inputs. See DESIGN.md."
 NOT_APPLICABLE = {}
 CHECKS = {
- "C09": {
-  "text": "Coq theorems (unbounded in sizes, strides, shifts): the block kernels generated from block.py compute the documented "
-          "window / overlap-add sums; resize's default window is exactly the centre-aligned copy set; every per-axis map has an "
-          "inverse partial bijection. Hand models of the util functions and block wrappers are tied by exact correspondence.",
-  "note": "Trusted: Coq kernel+vm_compute; translate_loops.py and LoopIR.exec as the reading of numba loops; numpy slicing/roll as "
-          "modelled; 2-D/3-D block kernels match the N-D closed form by correspondence only (1-D+batch proved). No axioms.",
-  "technique": "Coq proof over generated loop-nest IR + exact model/implementation correspondence (vm_compute)",
+ 'C01': {
+  'text': "Coq theorems over an arbitrary commutative *-ring, by structural induction over a deep embedding of the operator language: for EVERY expression tree over ALL combinators (Conj, +, -, composition with python's flattening, scalar multiples, Hstack / Vstack / Diag for every axis in [-ndim, ndim) and None) the operator returned by the modelled _adjoint_linop satisfies <A x,y> = <x,A^H y> and has the shapes swapped, provided each library-backed leaf does; every leaf class with a modelled denotation is PROVED for all valid parameters (Identity, Flip, Down/Upsample, Reshape, the full Resize incl. shifts and rank changes, Circshift, Transpose incl. negative axes, Slice/Embed, Sum/Tile, Multiply with any broadcast pattern, MatMul/RightMatMul with batch broadcasting, ArrayToBlocks/BlocksToArray 1-3 D on the GENERATED kernels); the adjoint of the adjoint acts like the original; the fragment is closed under adjoints. The hand model is tied to linop.py by (i) the _adjoint_linop table regenerated from the source with equality lemmas and (ii) exact comparison of serialised A.H object graphs, shapes and values on every run.",
+  'note': 'Trusted: Coq kernel+vm_compute; hand model coq/model/Linop.v; tools/translate_linop.py, vlib/linser.py. Library-backed leaves (FFT: C05, NUFFT: C06, interpolation: C07, convolution: C08, wavelets: C10) enter as an oracle with the adjoint-pair hypothesis, discharged in those developments / validated by the complex dot test here. MRI factories are covered through the trees they build (C16). No axioms (all theorems closed under the global context).',
+  'technique': 'Coq proof by structural induction over a deep embedding of the operator language + exact object-graph / value correspondence',
  },
- "C01": {
-  "text": "Coq theorem over an arbitrary commutative *-ring: for EVERY expression tree over Conj / + / composition (hence scalar and sign "
-          "overloads, with python's flattening) the operator returned by the modelled _adjoint_linop satisfies <A x,y> = <x,A^H y> with swapped "
-          "shapes, provided each remaining node does; that node hypothesis is itself proved for Identity, Flip, Downsample, Upsample, Resize "
-          "(all shift combinations) and generically for any kernel or partial-bijection gather. The model (adj, shapes, den) is tied to linop.py "
-          "by exact comparison of the serialised A.H object graphs and of values on Gaussian-integer data.",
-  "note": "Trusted: Coq kernel+vm_compute; hand model coq/model/Linop.v (checked against the implementation each run); serialiser. Node hypothesis NOT yet "
-          "proved in Coq for Hstack/Vstack/Diag, Reshape, Transpose, Circshift, Multiply/MatMul (broadcast composite), Sum/Tile, blocks (1-D kernel facts in C09), "
-          "Slice/Embed and the library-backed leaves (FFT, NUFFT, interpolation, wavelet, convolution): for those the complex dot-test oracle on the implementation decides. No axioms.",
-  "technique": "Coq proof by structural induction over a deep embedding of the operator language + exact object-graph / value correspondence",
+ 'C02': {
+  'text': 'Coq theorem: every Conj/+/composition tree is linear over the scalar ring (complex a included), given linear nodes; re-indexing, gather and finite-sum leaf families proved linear. Determinism and non-mutation are run-time aliasing facts: decided by a byte-snapshot sweep over every operator tree (input and captured arrays, after .H/.N are cached), every Prox class and every public array function in three memory layouts.',
+  'note': 'Trusted: Coq kernel; functional_extensionality_dep (stdlib axiom, used for linearity of compositions); the snapshot harness. No static alias analysis: a mutation on a path the sweep does not execute is not seen.',
+  'technique': 'Coq proof (linearity by induction over the deep embedding) + dynamic byte-snapshot purity sweep',
  },
- "C02": {
-  "text": "Coq theorem: every Conj/+/composition tree is linear over the scalar ring (complex a included), given linear nodes; re-indexing, gather and "
-          "finite-sum leaf families proved linear. Determinism and non-mutation are run-time aliasing facts: decided by a byte-snapshot sweep over every "
-          "operator tree (input and captured arrays, after .H/.N are cached), every Prox class and every public array function in three memory layouts.",
-  "note": "Trusted: Coq kernel; functional_extensionality_dep (stdlib axiom, used for linearity of compositions); the snapshot harness. "
-          "No static alias analysis: a mutation on a path the sweep does not execute is not seen.",
-  "technique": "Coq proof (linearity by induction over the deep embedding) + dynamic byte-snapshot purity sweep",
+ 'C03': {
+  'text': "Coq theorems: A*B applies B then A (incl. flattening of nested compositions), A+B / A-B add results; Hstack, Vstack and Diag ARE the block-row, block-column and block-diagonal matrices along the axis (any axis in [-ndim, ndim), or flattened for None) with split points proved to be the prefix sums of the members' sizes; misfitting operands are rejected by the constructor model and accepted only with the advertised shapes. The constructor/shape model is compared exactly with the implementation on random trees and a malformed stream; values exactly on integers; the dense matrix of each tree against an independent numpy block-matrix assembly.",
+  'note': 'Trusted: Coq kernel+vm_compute; hand model Linop.v (checked against the implementation each run); the numpy block-matrix reference as search oracle. No axioms.',
+  'technique': 'Coq proof over the deep embedding + exact shape/value correspondence + rejection stream',
  },
- "C03": {
-  "text": "Coq theorems: A*B applies B then A (incl. flattening of nested compositions), A+B / A-B add results, misfitting operands are rejected by the "
-          "constructor model (Compose, Add) and accepted only with the advertised shapes. The constructor/shape model incl. Hstack/Vstack/Diag parameters "
-          "is compared exactly with the implementation on random trees and on a malformed stream; values are compared exactly on integers; the dense matrix of "
-          "each tree is compared with an independent numpy block-matrix assembly.",
-  "note": "Trusted: Coq kernel+vm_compute; hand model Linop.v; the numpy block-matrix reference used as search oracle. Block-row/column/diagonal "
-          "denotation of Hstack/Vstack/Diag is modelled as coded (start/end slices) and validated by correspondence, not yet proved equal to the abstract block matrix.",
-  "technique": "Coq proof over the deep embedding + exact shape/value correspondence + rejection stream",
+ 'C04': {
+  'text': 'Coq theorems: for EVERY operator class, A.N acts as A^H A on the input box: default _normal_linop exactly; Identity / Reshape; Transpose and Circshift (isometries proved); ArrayToBlocks exactly when blocks tile and BlocksToArray exactly when blocks do not overlap (1-3 block axes, on the generated kernels; the Gram of overlapping / gapped / partial blocks is shown NOT to be the identity, so the repaired side conditions are necessary); FFT/IFFT under unitarity of the oracle (C05). The _normal_linop table is regenerated from linop.py with equality lemmas; A.N object graphs are compared exactly; block operators with batch axes in every regime and NUFFT toeplitz on/off on square and non-square grids have dedicated streams.',
+  'note': 'Trusted: Coq kernel+vm_compute; hand model; NUFFT Toeplitz normal operator is only validated numerically to interpolation accuracy (partial). No axioms.',
+  'technique': 'Coq proof over the deep embedding + exact A.N object-graph correspondence',
  },
- "C04": {
-  "text": "Coq theorems: every class with the default _normal_linop (all combinators, block operators outside tiling/non-overlap) has A.N = A.H*A exactly; "
-          "Identity and Reshape shortcuts proved; every other shortcut is shown correct whenever the operator is an isometry on its index box. The model of "
-          "_normal_linop (incl. the repaired block side conditions) is compared exactly with the implementation's A.N object graph; A.N x vs A.H(A x) numerically.",
-  "note": "Trusted: Coq kernel+vm_compute; hand model. Isometry of Transpose/Circshift/FFT/tiling blocks is hypothesis in Coq (validated numerically); "
-          "NUFFT Toeplitz normal is only validated to interpolation accuracy (partial).",
-  "technique": "Coq proof over the deep embedding + exact A.N object-graph correspondence",
+ 'C05': {
+  'text': 'Coq theorems over any commutative *-ring with a root of unity (hypotheses w^n = 1, sum_k w^(km) = 0, derived from primitivity in a domain): fftshift(dft(ifftshift x))[k] = sum_j x_j w^((j-n/2)(k-n/2)) for every n >= 1, odd and even in one statement, for fft and ifft under both norms; N-D: centred resize first, then one centred transform per normalised axis; axes order and sign irrelevant; ifft(fft x) = x, Parseval, FFT^H = IFFT (justifying the linop adjoint and the Identity normal); dtype rule. The model runs on PrimFloat with twiddle tables validated inside Coq, against the implementation for all shapes/axes/center/norm/oshape/dtypes.',
+  'note': 'Trusted: Coq kernel+vm_compute(PrimFloat); numpy.fft is the DFT (oracle; compared with explicit DFT matrices every run). center=False with explicit oshape is validated by correspondence only. No axioms.',
+  'technique': 'Coq proof (root-of-unity algebra over an abstract *-ring) + PrimFloat model/implementation correspondence',
+  'design_ref': 'DESIGN.md §3 C05, notes/C05_C10.md',
  },
- "C07": {
-  "text": "Coq theorems about the loop nests GENERATED from interp.py on every run: the 1-D interpolate kernel equals the sum over the integers in "
-          "[ceil(k-W/2), floor(k+W/2)] of K((x-k)/(W/2),p)*in[b, x mod n]; those bounds are exactly the samples within half a width (ties included) for "
-          "any ordering with Galois ceil/floor; gridding accumulates the same weights onto the wrapped position (duplicates add); the two are exact "
-          "transposes; the generated _spline_kernel is the documented B-spline of order 0-2. Wrappers (batching, width/param broadcasting) and the 2-D/3-D "
-          "kernels are tied to an N-D closed form and to the implementation by PrimFloat correspondence.",
-  "note": "Trusted: Coq kernel+vm_compute(PrimFloat); translate_loops.py and LoopIR.exec; wrapper model Interp.v; Kaiser-Bessel kernel values measured on the "
-          "implementation (I0 polynomial outside the model; compared with numpy.i0 to 3e-6). 2-D/3-D kernels: correspondence only. No axioms.",
-  "technique": "Coq proof over loop-nest IR generated from the source + PrimFloat model/implementation correspondence",
+ 'C06': {
+  'text': 'Coq theorems over an abstract *-ring: nufft_adjoint is the EXACT adjoint of nufft for every shape, coordinate set, oversampling and width (all scalar factors, the real apodisation, the centred pad/crop pair proved; the un-normalised FFT pair derived from the DFT-sum oracle; interpolate/gridding pair from C07 as hypothesis); exact periodicity: adding N_d to a coordinate adds ceil(os*N_d) to the scaled coordinate and the interpolation window wraps by that; conformance of beta / scale / shift / apodisation formulas. Parameter functions and the step structure are run on PrimFloat against the implementation (Kaiser-Bessel values, sinh, twiddles as data).',
+  'note': "Trusted: Coq kernel+vm_compute(PrimFloat); numpy.fft as DFT oracle; the accuracy bound itself (3% at defaults, 0.3% at oversamp 2) and the Toeplitz normal operator are VALIDATED NUMERICALLY ONLY against the explicit NUDFT (partial, as the property's accuracy clause is numerical analysis). No axioms.",
+  'technique': 'Coq proof (composition of adjoint pairs over an abstract *-ring) + PrimFloat correspondence + numeric NUDFT validation',
+  'design_ref': 'DESIGN.md §3 C06, notes/C06_C08.md',
  },
- "C11": {
-  "text": "Coq theorems over R (real and complex elements in one generic proof): a point satisfying the prox variational inequality is THE strict minimiser; "
-          "soft threshold (scalar/array lamda, any length) is that minimiser; hard threshold = documented map; clip, l2-ball (incl. boundary, zero), "
-          "l-infinity (with bias) are Euclidean projections; the l1-ball sort/cumsum search returns theta >= 0 with sum(|y|-theta)+ = eps, which characterises the "
-          "projection, feasible input returned unchanged; L2Reg closed form and proxh composition; Conj (Moreau), Stack (block separable), UnitaryTransform. "
-          "Model mirrors thresh.py/prox.py line by line and is compared with the implementation on PrimFloat.",
-  "note": "Trusted: Coq kernel+vm_compute(PrimFloat), stdlib real-number axioms (sig_forall_dec, sig_not_dec, functional_extensionality_dep) as printed per theorem; "
-          "numpy eigh/sort as oracles (the eigendecomposition the implementation used is checked against its spec inside Coq and passed in). "
-          "PsdProj: partial (proved from spectral consequences of the eigh spec).",
-  "technique": "Coq proof over R of the prox variational inequalities + PrimFloat model/implementation correspondence",
-  "design_ref": "DESIGN.md §3 C11, notes/C11.md",
+ 'C07': {
+  'text': 'Coq theorems about the loop nests GENERATED from interp.py on every run, for 1-D, 2-D and 3-D kernels: interpolate equals the separable kernel sum over the integers in [ceil(k-W/2), floor(k+W/2)] per axis with periodic wrap; those bounds are exactly the samples within half a width (ties included) for any ordering with Galois ceil/floor; gridding accumulates the same weights onto the wrapped position (duplicates add); interpolate/gridding are exact transposes (stated on the generated kernels); the generated _spline_kernel is the documented B-spline of order 0-2. The wrappers (batching, width/param broadcasting) are tied to an N-D closed form and to the implementation by PrimFloat correspondence.',
+  'note': 'Trusted: Coq kernel+vm_compute(PrimFloat); translate_loops.py and LoopIR.exec; wrapper model Interp.v; Kaiser-Bessel kernel values measured on the implementation (I0 polynomial outside the model; compared with numpy.i0 to 3e-6). No axioms.',
+  'technique': 'Coq proof over loop-nest IR generated from the source + PrimFloat model/implementation correspondence',
  },
- "C16": {
-  "text": "Coq theorems: for every batch size b >= 1 the coil-batched evaluation equals the explicit encoding y[c,k] = sqrt(w)[k] F(maps[c] x)[k] (forward), "
-          "and the per-coil adjoint terms summed batch by batch (last batch partial) give the same image (chunked-sum lemma, any n, b); weighted least-squares identity. "
-          "The operator tree returned by the Sense factory is compared exactly with the modelled factory tree for every coil_batch_size; explicit and batched encodings are "
-          "evaluated in Coq against the implementation; recon apps checked for optimality numerically.",
-  "note": "Trusted: Coq kernel+vm_compute; hand model Sense.v/Linop.v; single-coil Fourier matrix measured on the implementation (FFT/NUFFT correctness is C05/C06). "
-          "Recon optimality (SenseRecon normal equations, TV solver agreement) is validated numerically only; tseg/comm/transp_nufft outside the model. No axioms.",
-  "technique": "Coq proof (index algebra / chunked sums over any *-ring) + exact factory-tree correspondence + PrimFloat value correspondence",
+ 'C08': {
+  'text': 'Coq theorems over any *-ring (one spatial axis, arbitrary batch shape, multi-channel, any stride, both modes): the model of _convolve over the recorded scipy specs equals y[b,c,p] = sum_i sum_t data[b,i,p*s+off-t] filt[c,i,t] with off = 0 / min(m,n)-1 and the advertised lengths; convolve_data_adjoint and convolve_filter_adjoint (zero-stuffing + correlate in the coded adjoint_mode) are the exact adjoints and return the requested shapes; inadmissible shape/stride/channel combinations are rejected. Exact Gaussian-integer correspondence for D = 1..3 incl. a malformed stream and the scipy specs themselves.',
+  'note': 'Trusted: Coq kernel+vm_compute; scipy.signal convolve/correlate specs (Gallina definitions, checked against the real scipy each run). D = 2,3 and multi_channel=False are tied by exact correspondence to the N-D closed form, not proved. No axioms.',
+  'technique': 'Coq proof (kernel operators + kernel_adjoint) + exact integer model/implementation correspondence',
+  'design_ref': 'DESIGN.md §3 C08, notes/C06_C08.md',
  },
- "C19": {
-  "text": "Coq theorems over R: SU(2) step identity and its product over ANY waveform; exact unitarity of abrm_hp, blochsim, abrm_ptx; exact product formula and bounds for "
-          "abrm/abrm_nd with the epsilon regulariser (=1 at eps=0); zero RF => b = 0; composition as ordered SU(2) product (abrm_nd full, abrm_hp/blochsim per-sample loop: partial); "
-          "ab2rf peeling recursion inverts the forward hard-pulse polynomials (final angle conversion: partial). One model over an ops record + trig oracle, run on PrimFloat with cos/sin "
-          "tables keyed by the angle the model computes.",
-  "note": "Trusted: Coq kernel+vm_compute(PrimFloat), stdlib real-number axioms; numpy cos/sin/exp values supplied as data; b2a/mag2mp minimum-phase numerics and abrm_ptx zero-RF/composition "
-          "are validated numerically only.",
-  "technique": "Coq proof over R (induction over waveforms) + PrimFloat model/implementation correspondence",
-  "design_ref": "DESIGN.md §3 C19, notes/C19_C20.md",
+ 'C09': {
+  'text': "Coq theorems (unbounded in sizes, strides, shifts): the 1-D, 2-D and 3-D block kernels GENERATED from block.py compute the documented window / overlap-add sums and equal the N-D closed forms; nothing is written outside the box; resize's default window is exactly the centre-aligned copy set; every per-axis map has an inverse partial bijection. Hand models of the util functions and block wrappers are tied by exact correspondence on labelled integer arrays.",
+  'note': 'Trusted: Coq kernel+vm_compute; translate_loops.py and LoopIR.exec as the reading of numba loops; numpy slicing/roll as modelled in Rearrange.v. No axioms.',
+  'technique': 'Coq proof over generated loop-nest IR + exact model/implementation correspondence (vm_compute)',
  },
- "C20": {
-  "text": "Coq theorems over R for ALL area, gmax, dgdt, dt > 0 (triangle, trapezoid and boundary in one statement): trap_grad starts/ends at 0, sum*dt = area exactly, 0 <= w <= gmax, "
-          "|dw| <= dgdt*dt; min_trap_grad likewise with the area under its flat top (>= 1 flat sample). The designer model is written once over an ops record, run on PrimFloat against the implementation.",
-  "note": "Trusted: Coq kernel+vm_compute(PrimFloat), stdlib real-number axioms (ceil via `up`); float rounding of ceil at exact integers (tolerance 1e-9). spokes_grad is checked by the numeric oracle only "
-          "(restricted to spoke sets whose blips fit inside the slice lobe; see DESIGN.md findings).",
-  "technique": "Coq proof over R (lra/nra with a real ceiling) + PrimFloat model/implementation correspondence",
-  "design_ref": "DESIGN.md §3 C20, notes/C19_C20.md",
+ 'C10': {
+  'text': "Coq theorems for any analysis/synthesis oracle pair (W, Wr) with Wr(W z) = z, <W a, W b> = <a, b>: crop(pad x) = x for any shape (odd lengths), iwt(fwt x) = x, ||fwt x|| = ||x||, iwt is the adjoint of fwt for arbitrary coefficient arrays, advertised coefficient shape = shape of W on the padded shape. The oracle hypotheses are validated on every run for all 75 orthogonal PyWavelets families (haar, db1-38, sym2-20, coif1-17) over shapes incl. odd and shorter-than-filter, axes subsets, levels None/1/2/3, real/complex; the wrapper (padding, crop, packing, dtype) is compared exactly with the model with pywt's own results passed in as data.",
+  'note': "Trusted: Coq kernel+vm_compute; PyWavelets' orthogonality in mode='zero' (oracle, validated to 1e-7). No axioms.",
+  'technique': 'Coq proof over an abstract orthonormal oracle + exact wrapper correspondence + per-wavelet oracle validation',
+  'design_ref': 'DESIGN.md §3 C10, notes/C05_C10.md',
  },
- "C13": {
-  "text": "Coq theorems over an abstract real inner-product space (any convex g with a variational-inequality prox, f with the descent and convexity inequalities, "
-          "proved for 1/2||Ax-y||^2): ISTA quantitative descent for every alpha>0 and monotonicity for alpha*L<=2; O(1/k) rate; FISTA O(1/k^2) with the coded t-sequence and "
-          "momentum coefficient (one-step potential + telescoping); resid=0 => fixed point and global minimiser (accelerated or not); PDHG saddle point <=> fixed point for "
-          "scalar / diagonal / abstract steps, any theta, every gamma branch and along the accelerated schedules; Fejer monotonicity in the skewed pairing (x_k,u_{k+1}) under "
-          "tau*sigma*||A||^2<=1 with summable step lengths. The update steps are one Gallina model run on PrimFloat against every iterate of the implementation.",
-  "note": "Trusted: Coq kernel+vm_compute(PrimFloat); stdlib real-number axioms + functional extensionality as printed per theorem. Not proved (partial): convergence of the "
-          "iterates to the minimiser, O(1/k^2) for accelerated PDHG, Fejer with array-valued steps (oracle only); in-place update of the caller's arrays is checked dynamically.",
-  "technique": "Coq proof over an abstract inner-product space + PrimFloat trajectory correspondence",
-  "design_ref": "DESIGN.md §3 C13, notes/C13.md",
+ 'C11': {
+  'text': 'Coq theorems over R (real and complex elements in one generic proof): a point satisfying the prox variational inequality is THE strict minimiser; soft threshold (scalar/array lamda, any length) is that minimiser; hard threshold = documented map; clip, l2-ball (incl. boundary, zero), l-infinity (with bias) are Euclidean projections; the l1-ball sort/cumsum search returns theta >= 0 with sum(|y|-theta)+ = eps, which characterises the projection, feasible input returned unchanged; L2Reg closed form and proxh composition; Conj (Moreau), Stack (block separable), UnitaryTransform. Model mirrors thresh.py/prox.py line by line and is compared with the implementation on PrimFloat.',
+  'note': 'Trusted: Coq kernel+vm_compute(PrimFloat), stdlib real-number axioms (sig_forall_dec, sig_not_dec, functional_extensionality_dep) as printed per theorem; numpy eigh/sort as oracles (the eigendecomposition the implementation used is checked against its spec inside Coq and passed in). PsdProj: partial (proved from spectral consequences of the eigh spec).',
+  'technique': 'Coq proof over R of the prox variational inequalities + PrimFloat model/implementation correspondence',
+  'design_ref': 'DESIGN.md §3 C11, notes/C11.md',
  },
- "C12": {
-  "text": "Coq theorems over an arbitrary real inner-product space (A self-adjoint, P absent or self-adjoint positive definite; complex Hermitian systems via the real embedding), "
-          "for every k, max_iter, tol, x0, b: tracked residual r_k = b - A x_k while k < max_iter (and exactly what is stale after the final update); conjugacy of directions and "
-          "P-orthogonality of residuals; x_k minimises phi over x0 + span{p_0..p_{k-1}} and over x0 + K_k(PA, P r0) (Krylov optimality), hence the A-norm error never increases; "
-          "breakdown (pAp <= 0) leaves the state unchanged with done() true, and for PD A happens only when solved. The state machine mirrors __init__/_update attribute by attribute "
-          "and is compared after every update with the implementation on PrimFloat.",
-  "note": "Trusted: Coq kernel+vm_compute(PrimFloat); stdlib real-number axioms as printed. Finite termination within n steps is validated numerically only. "
-          "'Written into the caller's array' is checked dynamically (object identity + contents).",
-  "technique": "Coq proof over an abstract inner-product space (invariants by induction over updates) + PrimFloat trajectory correspondence",
-  "design_ref": "DESIGN.md §3 C12, notes/C12_C15.md",
+ 'C12': {
+  'text': 'Coq theorems over an arbitrary real inner-product space (A self-adjoint, P absent or self-adjoint positive definite; complex Hermitian systems via the real embedding), for every k, max_iter, tol, x0, b: tracked residual r_k = b - A x_k while k < max_iter (and exactly what is stale after the final update); conjugacy of directions and P-orthogonality of residuals; x_k minimises phi over x0 + span{p_0..p_{k-1}} and over x0 + K_k(PA, P r0) (Krylov optimality), hence the A-norm error never increases; breakdown (pAp <= 0) leaves the state unchanged with done() true, and for PD A happens only when solved. The state machine mirrors __init__/_update attribute by attribute and is compared after every update with the implementation on PrimFloat.',
+  'note': "Trusted: Coq kernel+vm_compute(PrimFloat); stdlib real-number axioms as printed. Finite termination within n steps is validated numerically only. 'Written into the caller's array' is checked dynamically (object identity + contents).",
+  'technique': 'Coq proof over an abstract inner-product space (invariants by induction over updates) + PrimFloat trajectory correspondence',
+  'design_ref': 'DESIGN.md §3 C12, notes/C12_C15.md',
  },
- "C15": {
-  "text": "Coq theorems: `while not done: update` performs min(max_iter, first stopping k) updates and iter counts them, for every max_iter (0 and negative included) and any "
-          "interleaving of extra done() calls; with tol = 0 an early stop is a genuine fixed point for GradientMethod (non-accelerated and, after the repair, accelerated — unconditional), "
-          "CG (rz = 0 => solved) and PDHG with scalar steps (resid = 0 => neither x nor u moved); power-iteration estimates are non-decreasing and <= L once normalised. "
-          "The driver model must reproduce every done() answer, iter value and update count of 15 algorithm kinds under random interleavings.",
-  "note": "Trusted: Coq kernel+vm_compute; stdlib real-number axioms. Early-stop statements for Newton, GerchbergSaxton, PDHG with array steps / step adaptation are checked by the oracle only "
-          "(one more update leaves the solution unchanged).",
-  "technique": "Coq proof (state-machine induction) + exact history correspondence (counters, flags) + oracle on extra updates",
-  "design_ref": "DESIGN.md §3 C15, notes/C12_C15.md",
+ 'C13': {
+  'text': 'Coq theorems over an abstract real inner-product space (any convex g with a variational-inequality prox, f with the descent and convexity inequalities, proved for 1/2||Ax-y||^2): ISTA quantitative descent for every alpha>0 and monotonicity for alpha*L<=2; O(1/k) rate; FISTA O(1/k^2) with the coded t-sequence and momentum coefficient (one-step potential + telescoping); resid=0 => fixed point and global minimiser (accelerated or not); PDHG saddle point <=> fixed point for scalar / diagonal / abstract steps, any theta, every gamma branch and along the accelerated schedules; Fejer monotonicity in the skewed pairing (x_k,u_{k+1}) under tau*sigma*||A||^2<=1 with summable step lengths. The update steps are one Gallina model run on PrimFloat against every iterate of the implementation.',
+  'note': "Trusted: Coq kernel+vm_compute(PrimFloat); stdlib real-number axioms + functional extensionality as printed per theorem. Not proved (partial): convergence of the iterates to the minimiser, O(1/k^2) for accelerated PDHG, Fejer with array-valued steps (oracle only); in-place update of the caller's arrays is checked dynamically.",
+  'technique': 'Coq proof over an abstract inner-product space + PrimFloat trajectory correspondence',
+  'design_ref': 'DESIGN.md §3 C13, notes/C13.md',
  },
- "C06": {
-  "text": "Coq theorems over an abstract *-ring: nufft_adjoint is the EXACT adjoint of nufft for every shape, coordinate set, oversampling and width (all scalar factors, the real "
-          "apodisation, the centred pad/crop pair proved; the un-normalised FFT pair derived from the DFT-sum oracle; interpolate/gridding pair from C07 as hypothesis); exact periodicity: "
-          "adding N_d to a coordinate adds ceil(os*N_d) to the scaled coordinate and the interpolation window wraps by that; conformance of beta / scale / shift / apodisation formulas. "
-          "Parameter functions and the step structure are run on PrimFloat against the implementation (Kaiser-Bessel values, sinh, twiddles as data).",
-  "note": "Trusted: Coq kernel+vm_compute(PrimFloat); numpy.fft as DFT oracle; the accuracy bound itself (3% at defaults, 0.3% at oversamp 2) and the Toeplitz normal operator are "
-          "VALIDATED NUMERICALLY ONLY against the explicit NUDFT (partial, as the property's accuracy clause is numerical analysis). No axioms.",
-  "technique": "Coq proof (composition of adjoint pairs over an abstract *-ring) + PrimFloat correspondence + numeric NUDFT validation",
-  "design_ref": "DESIGN.md §3 C06, notes/C06_C08.md",
+ 'C14': {
+  'text': "Coq theorems over an abstract real inner-product space (g an extended-real convex function given by its prox): the configuration logic `_get_alg` as a total decision function rejects exactly CG+proxg, GradientMethod+G and unknown solvers; for each branch the configured iteration solves the DOCUMENTED problem: CG system <=> stationarity <=> minimiser (and meets C12's hypotheses); GradientMethod fixed points = minimisers for any alpha; PDHG without G: fixed points = minimisers for all tau, sigma > 0; PDHG / ADMM with G: fixed points = KKT pairs (=> minimiser; converse given a multiplier). All 1152 configurations are constructed and their wiring compared exactly with the model's descriptor; configured data and first updates compared on PrimFloat; every accepted solver's objective compared with an independent optimum.",
+  'note': 'Trusted: Coq kernel+vm_compute(PrimFloat); stdlib real-number axioms + funext. Partial: multiplier existence for g o G (chain rule) and convergence of PDHG/ADMM to the fixed point are not proved (the objective at the returned x is validated numerically against an independent optimum); complex data only through the numpy oracle.',
+  'technique': 'Coq proof (fixed points of the configured iteration = minimisers) + exhaustive configuration correspondence + PrimFloat step correspondence',
+  'design_ref': 'DESIGN.md §3 C14, notes/C14.md',
  },
- "C08": {
-  "text": "Coq theorems over any *-ring (one spatial axis, arbitrary batch shape, multi-channel, any stride, both modes): the model of _convolve over the recorded scipy specs equals "
-          "y[b,c,p] = sum_i sum_t data[b,i,p*s+off-t] filt[c,i,t] with off = 0 / min(m,n)-1 and the advertised lengths; convolve_data_adjoint and convolve_filter_adjoint (zero-stuffing + "
-          "correlate in the coded adjoint_mode) are the exact adjoints and return the requested shapes; inadmissible shape/stride/channel combinations are rejected. "
-          "Exact Gaussian-integer correspondence for D = 1..3 incl. a malformed stream and the scipy specs themselves.",
-  "note": "Trusted: Coq kernel+vm_compute; scipy.signal convolve/correlate specs (Gallina definitions, checked against the real scipy each run). D = 2,3 and multi_channel=False are tied by exact "
-          "correspondence to the N-D closed form, not proved. No axioms.",
-  "technique": "Coq proof (kernel operators + kernel_adjoint) + exact integer model/implementation correspondence",
-  "design_ref": "DESIGN.md §3 C08, notes/C06_C08.md",
+ 'C15': {
+  'text': 'Coq theorems: `while not done: update` performs min(max_iter, first stopping k) updates and iter counts them, for every max_iter (0 and negative included) and any interleaving of extra done() calls; with tol = 0 an early stop is a genuine fixed point for GradientMethod (non-accelerated and, after the repair, accelerated — unconditional), CG (rz = 0 => solved) and PDHG with scalar steps (resid = 0 => neither x nor u moved); power-iteration estimates are non-decreasing and <= L once normalised. The driver model must reproduce every done() answer, iter value and update count of 15 algorithm kinds under random interleavings.',
+  'note': 'Trusted: Coq kernel+vm_compute; stdlib real-number axioms. Early-stop statements for Newton, GerchbergSaxton, PDHG with array steps / step adaptation are checked by the oracle only (one more update leaves the solution unchanged).',
+  'technique': 'Coq proof (state-machine induction) + exact history correspondence (counters, flags) + oracle on extra updates',
+  'design_ref': 'DESIGN.md §3 C15, notes/C12_C15.md',
  },
- "C14": {
-  "text": "Coq theorems over an abstract real inner-product space (g an extended-real convex function given by its prox): the configuration logic `_get_alg` as a total decision "
-          "function rejects exactly CG+proxg, GradientMethod+G and unknown solvers; for each branch the configured iteration solves the DOCUMENTED problem: CG system <=> stationarity <=> "
-          "minimiser (and meets C12's hypotheses); GradientMethod fixed points = minimisers for any alpha; PDHG without G: fixed points = minimisers for all tau, sigma > 0; PDHG / ADMM with G: "
-          "fixed points = KKT pairs (=> minimiser; converse given a multiplier). All 1152 configurations are constructed and their wiring compared exactly with the model's descriptor; "
-          "configured data and first updates compared on PrimFloat; every accepted solver's objective compared with an independent optimum.",
-  "note": "Trusted: Coq kernel+vm_compute(PrimFloat); stdlib real-number axioms + funext. Partial: multiplier existence for g o G (chain rule) and convergence of PDHG/ADMM to the fixed point "
-          "are not proved (the objective at the returned x is validated numerically against an independent optimum); complex data only through the numpy oracle.",
-  "technique": "Coq proof (fixed points of the configured iteration = minimisers) + exhaustive configuration correspondence + PrimFloat step correspondence",
-  "design_ref": "DESIGN.md §3 C14, notes/C14.md",
+ 'C16': {
+  'text': 'Coq theorems: for every batch size b >= 1 the coil-batched evaluation equals the explicit encoding y[c,k] = sqrt(w)[k] F(maps[c] x)[k] (forward), and the per-coil adjoint terms summed batch by batch (last batch partial) give the same image (chunked-sum lemma, any n, b); weighted least-squares identity. The operator tree returned by the Sense factory is compared exactly with the modelled factory tree for every coil_batch_size; explicit and batched encodings are evaluated in Coq against the implementation; recon apps checked for optimality numerically.',
+  'note': 'Trusted: Coq kernel+vm_compute; hand model Sense.v/Linop.v; single-coil Fourier matrix measured on the implementation (FFT/NUFFT correctness is C05/C06). Recon optimality (SenseRecon normal equations, TV solver agreement) is validated numerically only; tseg/comm/transp_nufft outside the model. No axioms.',
+  'technique': 'Coq proof (index algebra / chunked sums over any *-ring) + exact factory-tree correspondence + PrimFloat value correspondence',
+ },
+ 'C17': {
+  'text': 'Coq theorems over R for any per-voxel matrix, any start vector and any number >= 1 of normalised power iterations: unit l2 norm across coils; the phase reference keeps the norm and makes coil 0 real and >= 0; the crop multiplies by exactly 0 or 1, hence every voxel is unit-norm or exactly zero; eigenvalue estimate >= 0 (<= 1 from the second update under a contraction hypothesis: partial). The model reproduces `_output`, one PowerMethod update and whole voxels of the real EspiritCalib on PrimFloat.',
+  'note': 'Trusted: Coq kernel+vm_compute(PrimFloat); stdlib real-number axioms. eig <= 1 needs AHA to be an l2 contraction (hypothesis; validated numerically); recovery of the true maps is validated numerically only (partial).',
+  'technique': 'Coq proof over R + PrimFloat model/implementation correspondence',
+  'design_ref': 'DESIGN.md §3 C17, notes/C17_C18.md',
+ },
+ 'C18': {
+  'text': "Coq theorems for EVERY stream of random draws and every fuel: mask entries are 0/1, ones are never erased, the calibration block is sampled, points are added only in range, the crop zeroes everything where the code's r >= 1; poisson returns only within tol and raises only outside it; the slope search strictly shrinks its interval on an abstract ordered float grid and terminates. The pure-Python kernel is replayed on its recorded random stream in Coq (mask compared exactly), the search on its own accelerations; end-to-end oracle with watchdog.",
+  'note': "Trusted: Coq kernel+vm_compute(PrimFloat); floats modelled as an abstract finite ordered grid for termination; numba's private RNG (reproducibility / global RNG state checked at run time only: partial). Open known finding: with calib != 0 the crop keeps samples outside the TRUE inscribed ellipse (listed in known_findings.json).",
+  'technique': 'Coq proof (state machine over arbitrary random streams) + exact stream-replay correspondence',
+  'design_ref': 'DESIGN.md §3 C18, notes/C17_C18.md',
+ },
+ 'C19': {
+  'text': 'Coq theorems over R: SU(2) step identity and its product over ANY waveform; exact unitarity of abrm_hp, blochsim, abrm_ptx; exact product formula and bounds for abrm/abrm_nd with the epsilon regulariser (=1 at eps=0); zero RF => b = 0; composition as ordered SU(2) product (abrm_nd full, abrm_hp/blochsim per-sample loop: partial); ab2rf peeling recursion inverts the forward hard-pulse polynomials (final angle conversion: partial). One model over an ops record + trig oracle, run on PrimFloat with cos/sin tables keyed by the angle the model computes.',
+  'note': 'Trusted: Coq kernel+vm_compute(PrimFloat), stdlib real-number axioms; numpy cos/sin/exp values supplied as data; b2a/mag2mp minimum-phase numerics and abrm_ptx zero-RF/composition are validated numerically only.',
+  'technique': 'Coq proof over R (induction over waveforms) + PrimFloat model/implementation correspondence',
+  'design_ref': 'DESIGN.md §3 C19, notes/C19_C20.md',
+ },
+ 'C20': {
+  'text': 'Coq theorems over R for ALL area, gmax, dgdt, dt > 0 (triangle, trapezoid and boundary in one statement): trap_grad starts/ends at 0, sum*dt = area exactly, 0 <= w <= gmax, |dw| <= dgdt*dt; min_trap_grad likewise with the area under its flat top (>= 1 flat sample). The designer model is written once over an ops record, run on PrimFloat against the implementation.',
+  'note': 'Trusted: Coq kernel+vm_compute(PrimFloat), stdlib real-number axioms (ceil via `up`); float rounding of ceil at exact integers (tolerance 1e-9). spokes_grad is checked by the numeric oracle only (restricted to spoke sets whose blips fit inside the slice lobe; see DESIGN.md findings).',
+  'technique': 'Coq proof over R (lra/nra with a real ceiling) + PrimFloat model/implementation correspondence',
+  'design_ref': 'DESIGN.md §3 C20, notes/C19_C20.md',
  },
 }
